@@ -204,6 +204,8 @@ func (r *RefCount[T]) WaitWithReleased(ctx context.Context, released func()) (pr
 	var currNonce uint32
 	var callReleasedOnce sync.Once
 	var ref *Ref[T]
+	// refSet is closed once ref has been assigned
+	refSet := make(chan struct{})
 	ref = r.AddRef(func(resolved bool, val T, err error) {
 		// note: r.mtx is held while calling this function.
 		// check if state is different, if we returned already.
@@ -212,6 +214,7 @@ func (r *RefCount[T]) WaitWithReleased(ctx context.Context, released func()) (pr
 				callReleasedOnce.Do(func() {
 					go func() {
 						verifhook.Go("refcount.waitreleased", r)
+						<-refSet
 						ref.Release()
 						if released != nil {
 							released()
@@ -227,6 +230,7 @@ func (r *RefCount[T]) WaitWithReleased(ctx context.Context, released func()) (pr
 			prom.SetResult(val, err)
 		}
 	})
+	close(refSet)
 	return prom, ref
 }
 
